@@ -148,7 +148,6 @@ class ScatteringParams:
         )
 
     @staticmethod
-    @lru_cache
     def for_isotope(isotope: str) -> ScatteringParams:
         """Return the scattering parameters for the given element / isotope.
 
@@ -163,6 +162,20 @@ class ScatteringParams:
         :
             Neutron scattering parameters.
         """
+        # Hand out copies so that callers cannot modify the cached parameters.
+        cached = ScatteringParams._cached_for_isotope(isotope)
+        return dataclasses.replace(
+            cached,
+            **{
+                field.name: value.copy()
+                for field in dataclasses.fields(cached)
+                if isinstance(value := getattr(cached, field.name), sc.Variable)
+            },
+        )
+
+    @staticmethod
+    @lru_cache
+    def _cached_for_isotope(isotope: str) -> ScatteringParams:
         with _open_bundled_parameters_file('scattering_parameters.csv') as f:
             if line_remainder := _find_line_with_isotope(isotope, f):
                 return ScatteringParams._parse_line(isotope, line_remainder)
